@@ -15,6 +15,7 @@ import (
 	"sort"
 	"strconv"
 	"strings"
+	"sync"
 	"time"
 
 	"verif/engine/gossa"
@@ -42,6 +43,8 @@ type HSpec struct {
 	Cfg     func(c *gossa.Config, thorough bool)
 	Note    string
 	NeedBig bool
+	Single  bool // one-path harness: run concurrently with its siblings, one worker each
+	Label   string // distinguishes several specs of the same Func
 	BigW    int // width of the math/big model for this harness (0: property default)
 }
 
@@ -112,6 +115,8 @@ type runCtx struct {
 	extra      map[string]interface{}
 	crossChecked int
 	deadline   time.Time
+	mu         sync.Mutex
+	witnessed  map[string]bool
 }
 
 func main() {
@@ -154,7 +159,7 @@ func main() {
 	}
 	seed, _ := strconv.Atoi(os.Getenv("VERIF_SEED"))
 	rc := &runCtx{prop: p, tier: *tier, thorough: *tier == "thorough", workers: *workers, verbose: *verbose, only: *only, seed: seed,
-		t0: time.Now(), funcs: map[string]int{}, bounds: map[string]interface{}{}, knownAct: map[string]bool{}, extra: map[string]interface{}{}}
+		t0: time.Now(), funcs: map[string]int{}, bounds: map[string]interface{}{}, knownAct: map[string]bool{}, extra: map[string]interface{}{}, witnessed: map[string]bool{}}
 	if *budget == 0 {
 		if rc.thorough {
 			*budget = 90 * time.Minute
@@ -334,18 +339,38 @@ func (rc *runCtx) runGossa() {
 			continue
 		}
 		ld.Sh.KnownActive = rc.knownAct
+		ld.Sh.KeepScript = rc.thorough && os.Getenv("VERIF_NO_CROSS") == ""
 		if err := ld.RunInits(); err != nil {
 			rc.broken = append(rc.broken, "init "+g.pkg+": "+err.Error())
 			continue
 		}
 		rc.logf("loaded %s in %.1fs", g.pkg, time.Since(tl).Seconds())
+		var singles []HSpec
 		for _, h := range g.specs {
-			rc.runOne(ld, g, pkgName, h)
+			if h.Single {
+				singles = append(singles, h)
+				continue
+			}
+			rc.runOne(ld, g, pkgName, h, rc.workers)
+		}
+		if len(singles) > 0 {
+			sem := make(chan struct{}, rc.workers)
+			var wg sync.WaitGroup
+			for _, h := range singles {
+				wg.Add(1)
+				sem <- struct{}{}
+				go func(h HSpec) {
+					defer wg.Done()
+					defer func() { <-sem }()
+					rc.runOne(ld, g, pkgName, h, 1)
+				}(h)
+			}
+			wg.Wait()
 		}
 	}
 }
 
-func (rc *runCtx) runOne(ld *gossa.Loaded, g *group, pkgName string, h HSpec) {
+func (rc *runCtx) runOne(ld *gossa.Loaded, g *group, pkgName string, h HSpec, workers int) {
 	if h.Known != "" && !rc.knownAct[h.Known] {
 		// region is not (or no longer) listed as known: the main harness covers it without exclusion
 		return
@@ -358,15 +383,15 @@ func (rc *runCtx) runOne(ld *gossa.Loaded, g *group, pkgName string, h HSpec) {
 		h.Cfg(&cfg, rc.thorough)
 	}
 	params := rc.params(h)
-	ld.Sh.Params = params
-	ld.Sh.KeepScript = rc.thorough && os.Getenv("VERIF_NO_CROSS") == ""
-	hr := ld.RunHarness(h.Func, cfg, rc.workers, rc.deadline)
+	hr := ld.RunHarness(h.Func, cfg, params, workers, rc.deadline)
+	rc.mu.Lock()
+	defer rc.mu.Unlock()
 	rc.states += hr.Paths
 	rc.queries += hr.Queries
 	for f, n := range hr.Funcs {
 		rc.funcs[f] = n
 	}
-	bkey := h.Func
+	bkey := h.Func + h.Label
 	rc.bounds[bkey] = map[string]interface{}{"params": params, "unwind": cfg.Unwind, "max_steps": cfg.MaxSteps, "ite_cap": cfg.IteCap, "conc_cap": cfg.ConcCap, "big_int_model_bits": gossa.BigW}
 	nd, nv, nu := 0, 0, 0
 	for _, vs := range hr.Checks {
@@ -376,11 +401,11 @@ func (rc *runCtx) runOne(ld *gossa.Loaded, g *group, pkgName string, h HSpec) {
 	}
 	rc.obligations += nd + nv + nu
 	rc.discharged += nd
-	summary := sample{"harness": h.Func, "paths": hr.Paths, "ends": hr.Ends, "checks_discharged": nd, "checks_violated": nv, "checks_unknown": nu,
+	summary := sample{"harness": h.Func + h.Label, "paths": hr.Paths, "ends": hr.Ends, "checks_discharged": nd, "checks_violated": nv, "checks_unknown": nu,
 		"queries": hr.Queries, "steps": hr.Steps, "wall_s": round2(hr.Wall), "reached": hr.Reached, "params": params}
 	rc.harnessRes = append(rc.harnessRes, summary)
 	fmt.Printf("harness %-28s paths=%d ends=%v checks: %d discharged, %d violated, %d unknown; queries=%d steps=%d %.1fs\n",
-		h.Func, hr.Paths, hr.Ends, nd, nv, nu, hr.Queries, hr.Steps, hr.Wall)
+		h.Func+h.Label, hr.Paths, hr.Ends, nd, nv, nu, hr.Queries, hr.Steps, hr.Wall)
 	for _, msg := range hr.Internal {
 		rc.broken = append(rc.broken, h.Func+": "+msg)
 	}
@@ -403,12 +428,13 @@ func (rc *runCtx) runOne(ld *gossa.Loaded, g *group, pkgName string, h HSpec) {
 	}
 	// vacuity guard
 	for _, r := range h.Reach {
-		if hr.Reached[r] == 0 {
+		if hr.Reached[r] == 0 && len(hr.Violations) == 0 {
 			rc.broken = append(rc.broken, fmt.Sprintf("%s: vacuity guard: label %q never reached", h.Func, r))
 		}
 	}
-	// replay one reachability witness natively (translator validation)
-	if len(h.Reach) > 0 && len(hr.Violations) == 0 {
+	// replay one reachability witness natively (translator validation), once per harness function
+	if len(h.Reach) > 0 && len(hr.Violations) == 0 && !rc.witnessed[h.Func] {
+		rc.witnessed[h.Func] = true
 		r := h.Reach[len(h.Reach)-1]
 		if m, ok := hr.ReachModels[r]; ok {
 			out, _ := rc.nativeReplay(g, pkgName, h, params, m, 60*time.Second)
@@ -484,7 +510,17 @@ func (rc *runCtx) candidate(g *group, pkgName string, h HSpec, params map[string
 	case "hang":
 		confirmed = strings.Contains(out, "test timed out") || strings.Contains(out, "VERIF-WATCHDOG")
 	}
-	if strings.Contains(out, "VERIF-MISMATCH") || strings.Contains(out, "VERIF-ASSUME-FAILED") {
+	// after the recorded model is exhausted the native run continues with zeros; only what
+	// happens before that point counts
+	cut := len(out)
+	for _, marker := range []string{"VERIF-EXTRA-NONDET", "VERIF-ASSUME-FAILED", "VERIF-MISMATCH"} {
+		if i := strings.Index(out, marker); i >= 0 && i < cut {
+			cut = i
+		}
+	}
+	if v.Kind == "check" {
+		confirmed = strings.Contains(out[:cut], "VERIF-CHECK-FAILED "+v.Label)
+	} else if strings.Contains(out, "VERIF-MISMATCH") || strings.Contains(out[:cut+1-1], "VERIF-ASSUME-FAILED") && cut < len(out) && strings.HasPrefix(out[cut:], "VERIF-ASSUME-FAILED") {
 		confirmed = false
 	}
 	if !confirmed {
